@@ -544,6 +544,35 @@ fn case(ctx: &Ctx, tape: &[u8], rec: &Rec, with_binary: bool) -> Verdict {
             .sig("C10:shadowing-not-displayed")
             .rendered(src));
         }
+        // the same definition with a statement at its end that makes the SSA conversion fail (a read of a
+        // variable that is never assigned): the shadowing declarations are still all reported
+        if !want.is_empty() {
+            if let Some(close) = src.rfind('}') {
+                let failing = format!("{} var zzu ; var zzw = zzu + 1 ; {}", &src[..close], &src[close..]);
+                std::fs::create_dir_all(&dir).map_err(|e| Bad::new(format!("INFRA mkdir: {e}")))?;
+                std::fs::write(&path, &failing).map_err(|e| Bad::new(format!("INFRA write: {e}")))?;
+                let out2 = binrun::run(&ctx.repo_bin, &binrun::RunOpts::files(&[&path]).verbose().level("info"))
+                    .map_err(|e| Bad::new(format!("INFRA {e}")))?;
+                let _ = std::fs::remove_dir_all(&dir);
+                let parsed2 = binrun::parse_stdout(&out2.stdout);
+                rec.class("binary_runs_on_definition_that_fails_ssa");
+                let mut got2: Vec<(usize, usize)> = parsed2
+                    .diags
+                    .iter()
+                    .filter(|d| d.id.as_deref() == Some("CS0001"))
+                    .filter_map(|d| d.loc.as_ref().map(|l| (l.1, l.2)))
+                    .collect();
+                got2.sort();
+                if got2 != want {
+                    return Err(Bad::new(format!(
+                        "with a statement appended that makes the SSA conversion fail, the binary displays `shadowing variable` warnings at {got2:?} (line, col) but the shadowing declarations are at {want:?}; exit {:?}",
+                        out2.status
+                    ))
+                    .sig("C10:shadowing-not-displayed-when-ssa-fails")
+                    .rendered(failing));
+                }
+            }
+        }
     }
     Ok(())
 }
